@@ -328,3 +328,374 @@ func specArgsOK(specs []argSpec, args []interface{}) bool {
 // Built-in functions (C09).
 
 func specAbs(f float64) float64 { return math.Abs(f) }
+
+// ---------------------------------------------------------------------------
+// Evaluation (C01 C02 C07 C15; C08 for slices): specEval transcribes the
+// JMESPath specification for every node type except function calls and
+// expression references (those are covered by the function contracts).
+// The second result is false when evaluation fails with an error.
+//
+// specObjPut / specObjKeyAt / specEmptyObj are intrinsics: the verifier maps
+// them to its model of Go maps (functional update; the ghost enumeration of
+// the keys that `range` uses). The bodies below are their native meaning.
+
+func specEmptyObj() map[string]interface{} {
+	return map[string]interface{}{}
+}
+
+func specObjPut(m map[string]interface{}, k string, x interface{}) map[string]interface{} {
+	out := make(map[string]interface{}, len(m)+1)
+	for key, val := range m {
+		out[key] = val
+	}
+	out[k] = x
+	return out
+}
+
+func specObjKeyAt(m map[string]interface{}, i int) string {
+	keys := make([]string, 0, len(m))
+	for k := range m {
+		keys = append(keys, k)
+	}
+	// any fixed enumeration will do natively; results are compared up to order
+	for a := 1; a < len(keys); a++ {
+		for b := a; b > 0 && keys[b] < keys[b-1]; b-- {
+			keys[b], keys[b-1] = keys[b-1], keys[b]
+		}
+	}
+	if i < 0 || i >= len(keys) {
+		return ""
+	}
+	return keys[i]
+}
+
+func specField(payload interface{}, v interface{}) interface{} {
+	key, _ := payload.(string)
+	if m, ok := v.(map[string]interface{}); ok {
+		if x, present := m[key]; present {
+			return x
+		}
+	}
+	return nil
+}
+
+func specIndex(payload interface{}, v interface{}) interface{} {
+	a, ok := v.([]interface{})
+	if !ok {
+		return nil
+	}
+	i, _ := payload.(int)
+	if i < 0 {
+		if i < -len(a) {
+			return nil
+		}
+		i = i + len(a)
+	}
+	if i >= len(a) {
+		return nil
+	}
+	return a[i]
+}
+
+func specSlicePart(parts []*int, i int) sliceParam {
+	if i >= 0 && i < len(parts) && parts[i] != nil {
+		return sliceParam{N: *parts[i], Specified: true}
+	}
+	return sliceParam{}
+}
+
+func specSliceParams(parts []*int) []sliceParam {
+	return []sliceParam{specSlicePart(parts, 0), specSlicePart(parts, 1), specSlicePart(parts, 2)}
+}
+
+func specCompare(op interface{}, l interface{}, r interface{}) (interface{}, bool) {
+	t, _ := op.(tokType)
+	if t == tEQ {
+		return specDeepEq(l, r), true
+	}
+	if t == tNE {
+		return !specDeepEq(l, r), true
+	}
+	ln, lok := l.(float64)
+	rn, rok := r.(float64)
+	if t == tGT || t == tGTE || t == tLT || t == tLTE {
+		if !lok || !rok {
+			return nil, true
+		}
+		if t == tGT {
+			return ln > rn, true
+		}
+		if t == tGTE {
+			return ln >= rn, true
+		}
+		if t == tLT {
+			return ln < rn, true
+		}
+		return ln <= rn, true
+	}
+	// not a comparator token
+	if !lok || !rok {
+		return nil, true
+	}
+	return nil, false
+}
+
+func specListFrom(kids []ASTNode, i int, v interface{}, acc []interface{}) ([]interface{}, bool) {
+	if i < 0 || i >= len(kids) {
+		return acc, true
+	}
+	x, ok := specEval(kids[i], v)
+	if !ok {
+		return nil, false
+	}
+	return specListFrom(kids, i+1, v, append(acc, x))
+}
+
+func specHashFrom(kids []ASTNode, i int, v interface{}, acc map[string]interface{}) (map[string]interface{}, bool) {
+	if i < 0 || i >= len(kids) {
+		return acc, true
+	}
+	x, ok := specEval(kids[i], v)
+	if !ok {
+		return nil, false
+	}
+	key, _ := kids[i].value.(string)
+	return specHashFrom(kids, i+1, v, specObjPut(acc, key, x))
+}
+
+func specPipeFrom(kids []ASTNode, i int, v interface{}) (interface{}, bool) {
+	if i < 0 || i >= len(kids) {
+		return v, true
+	}
+	x, ok := specEval(kids[i], v)
+	if !ok {
+		return nil, false
+	}
+	return specPipeFrom(kids, i+1, x)
+}
+
+func specFlattenFrom(a []interface{}, i int, acc []interface{}) []interface{} {
+	if i < 0 || i >= len(a) {
+		return acc
+	}
+	if e, ok := a[i].([]interface{}); ok {
+		return specFlattenFrom(a, i+1, append(acc, e...))
+	}
+	return specFlattenFrom(a, i+1, append(acc, a[i]))
+}
+
+// specProjFrom applies rhs to a[i:], in order, dropping null results.
+func specProjFrom(rhs ASTNode, a []interface{}, i int, acc []interface{}) ([]interface{}, bool) {
+	if i < 0 || i >= len(a) {
+		return acc, true
+	}
+	x, ok := specEval(rhs, a[i])
+	if !ok {
+		return nil, false
+	}
+	if x != nil {
+		return specProjFrom(rhs, a, i+1, append(acc, x))
+	}
+	return specProjFrom(rhs, a, i+1, acc)
+}
+
+// specFilterFrom keeps the elements of a[i:] whose condition is true-like, then projects them.
+func specFilterFrom(cond ASTNode, rhs ASTNode, a []interface{}, i int, acc []interface{}) ([]interface{}, bool) {
+	if i < 0 || i >= len(a) {
+		return acc, true
+	}
+	c, ok := specEval(cond, a[i])
+	if !ok {
+		return nil, false
+	}
+	if specFalse(c) {
+		return specFilterFrom(cond, rhs, a, i+1, acc)
+	}
+	x, ok2 := specEval(rhs, a[i])
+	if !ok2 {
+		return nil, false
+	}
+	if x != nil {
+		return specFilterFrom(cond, rhs, a, i+1, append(acc, x))
+	}
+	return specFilterFrom(cond, rhs, a, i+1, acc)
+}
+
+// specObjValuesFrom lists the member values of m in the (unspecified) enumeration order, each once.
+func specObjValuesFrom(m map[string]interface{}, i int, acc []interface{}) []interface{} {
+	if i < 0 || i >= len(m) {
+		return acc
+	}
+	return specObjValuesFrom(m, i+1, append(acc, m[specObjKeyAt(m, i)]))
+}
+
+func specEval(n ASTNode, v interface{}) (interface{}, bool) {
+	kids := n.children
+	switch n.nodeType {
+	case ASTField:
+		return specField(n.value, v), true
+	case ASTIndex:
+		return specIndex(n.value, v), true
+	case ASTSubexpression, ASTIndexExpression:
+		if len(kids) != 2 {
+			return nil, false
+		}
+		l, ok := specEval(kids[0], v)
+		if !ok {
+			return nil, false
+		}
+		return specEval(kids[1], l)
+	case ASTLiteral:
+		return n.value, true
+	case ASTIdentity, ASTCurrentNode:
+		return v, true
+	case ASTKeyValPair:
+		if len(kids) != 1 {
+			return nil, false
+		}
+		return specEval(kids[0], v)
+	case ASTPipe:
+		return specPipeFrom(kids, 0, v)
+	case ASTMultiSelectList:
+		if v == nil {
+			return nil, true
+		}
+		r, ok := specListFrom(kids, 0, v, specEmptyList())
+		if !ok {
+			return nil, false
+		}
+		return r, true
+	case ASTMultiSelectHash:
+		if v == nil {
+			return nil, true
+		}
+		r, ok := specHashFrom(kids, 0, v, specEmptyObj())
+		if !ok {
+			return nil, false
+		}
+		return r, true
+	case ASTComparator:
+		if len(kids) != 2 {
+			return nil, false
+		}
+		l, ok := specEval(kids[0], v)
+		if !ok {
+			return nil, false
+		}
+		r, ok2 := specEval(kids[1], v)
+		if !ok2 {
+			return nil, false
+		}
+		return specCompare(n.value, l, r)
+	case ASTOrExpression:
+		if len(kids) != 2 {
+			return nil, false
+		}
+		l, ok := specEval(kids[0], v)
+		if !ok {
+			return nil, false
+		}
+		if specFalse(l) {
+			return specEval(kids[1], v)
+		}
+		return l, true
+	case ASTAndExpression:
+		if len(kids) != 2 {
+			return nil, false
+		}
+		l, ok := specEval(kids[0], v)
+		if !ok {
+			return nil, false
+		}
+		if specFalse(l) {
+			return l, true
+		}
+		return specEval(kids[1], v)
+	case ASTNotExpression:
+		if len(kids) != 1 {
+			return nil, false
+		}
+		l, ok := specEval(kids[0], v)
+		if !ok {
+			return nil, false
+		}
+		return specFalse(l), true
+	case ASTFlatten:
+		if len(kids) != 1 {
+			return nil, false
+		}
+		l, ok := specEval(kids[0], v)
+		if !ok {
+			return nil, false
+		}
+		a, isArr := l.([]interface{})
+		if !isArr {
+			return nil, true
+		}
+		return specFlattenFrom(a, 0, specEmptyList()), true
+	case ASTProjection:
+		if len(kids) != 2 {
+			return nil, false
+		}
+		l, ok := specEval(kids[0], v)
+		if !ok {
+			return nil, false
+		}
+		a, isArr := l.([]interface{})
+		if !isArr {
+			return nil, true
+		}
+		r, ok2 := specProjFrom(kids[1], a, 0, specEmptyList())
+		if !ok2 {
+			return nil, false
+		}
+		return r, true
+	case ASTFilterProjection:
+		if len(kids) != 3 {
+			return nil, false
+		}
+		l, ok := specEval(kids[0], v)
+		if !ok {
+			return nil, false
+		}
+		a, isArr := l.([]interface{})
+		if !isArr {
+			return nil, true
+		}
+		r, ok2 := specFilterFrom(kids[2], kids[1], a, 0, specEmptyList())
+		if !ok2 {
+			return nil, false
+		}
+		return r, true
+	case ASTValueProjection:
+		if len(kids) != 2 {
+			return nil, false
+		}
+		l, ok := specEval(kids[0], v)
+		if !ok {
+			return nil, false
+		}
+		m, isObj := l.(map[string]interface{})
+		if !isObj {
+			return nil, true
+		}
+		r, ok2 := specProjFrom(kids[1], specObjValuesFrom(m, 0, specEmptyList()), 0, specEmptyList())
+		if !ok2 {
+			return nil, false
+		}
+		return r, true
+	case ASTSlice:
+		a, isArr := v.([]interface{})
+		if !isArr {
+			return nil, true
+		}
+		parts, _ := n.value.([]*int)
+		sp := specSliceParams(parts)
+		if sp[2].Specified && sp[2].N == 0 {
+			return nil, false
+		}
+		return specPySlice(a, sp), true
+	}
+	// function calls and expression references are specified by the function contracts
+	return nil, false
+}
